@@ -33,6 +33,8 @@ def run(ctx):
     ctx.guard(pos_rule, ctx)
     ctx.guard(types_rule, ctx, ki)
     ctx.guard(scope_rule, ctx)
+    from . import scope as _scope
+    ctx.guard(_scope.symbols_exact, ctx, 'C06-SYMBOLS')
     ctx.guard(oblig_rule, ctx, ki)
     ctx.assume('uniqueness of generated ids and is_consistent() of a concrete program are not decided')
     ctx.assume('name resolution succeeds (well-formed, name-resolved programs): look-ups such as o_obj()/s_dt() return an instance')
